@@ -211,4 +211,104 @@ theorem runOpt_first (obj : List ℚ → ℚ × Option (List ℚ)) (strat : Stra
   intro e he
   simp [he]
 
+
+/-! ## the executable clause tests of `checkTrace` mean what the theorems say -/
+
+theorem zipAll_iff (ok : ℚ → Option ℚ → Bool) : ∀ (v : List ℚ) (bs : Bounds),
+    (List.zipWith ok v bs).all id = true ↔
+      ∀ (i : ℕ) (x : ℚ) (b : Option ℚ), v[i]? = some x → bs[i]? = some b → ok x b = true := by
+  intro v
+  induction v with
+  | nil => intro bs; simp
+  | cons x xs ih =>
+    intro bs
+    cases bs with
+    | nil => simp
+    | cons b bs' =>
+      simp only [List.zipWith_cons_cons, List.all_cons, id, Bool.and_eq_true, ih bs']
+      constructor
+      · rintro ⟨h0, hr⟩ i y c hy hc
+        cases i with
+        | zero => simp at hy hc; subst hy; subst hc; exact h0
+        | succ k => simp at hy hc; exact hr k y c hy hc
+      · intro h
+        refine ⟨h 0 x b (by simp) (by simp), ?_⟩
+        intro i y c hy hc
+        exact h (i+1) y c (by simpa using hy) (by simpa using hc)
+
+theorem geTol_zero (v b : ℚ) : geTol 0 v b = true ↔ b ≤ v := by simp [geTol]
+
+/-- the executable box test of `checkTrace` at tolerance 0 is the pointwise box of the theorems -/
+theorem inBox_zero_iff (pb : Problem) (v : List ℚ) : inBox 0 pb v = true ↔ InBoxP pb.lower pb.upper v := by
+  have ha : aboveAll 0 v pb.lower = true ↔ AboveP v pb.lower := by
+    cases h : pb.lower with
+    | none => simp [aboveAll, AboveP]
+    | some bs =>
+      simp only [aboveAll, AboveP, Option.some.injEq, forall_eq']
+      rw [zipAll_iff (geOpt 0)]
+      constructor
+      · intro hh i x b hx hb
+        have := hh i x (some b) hx hb
+        simpa [geOpt, leOpt, geTol_zero] using this
+      · intro hh i x b hx hb
+        cases b with
+        | none => rfl
+        | some c => simpa [geOpt, leOpt, geTol_zero] using hh i x c hx hb
+  have hb : belowAll 0 v pb.upper = true ↔ BelowP v pb.upper := by
+    cases h : pb.upper with
+    | none => simp [belowAll, BelowP]
+    | some bs =>
+      simp only [belowAll, BelowP, Option.some.injEq, forall_eq']
+      rw [zipAll_iff (leOpt 0)]
+      constructor
+      · intro hh i x b hx hb
+        have := hh i x (some b) hx hb
+        simpa [geOpt, leOpt, geTol_zero] using this
+      · intro hh i x b hx hb
+        cases b with
+        | none => rfl
+        | some c => simpa [geOpt, leOpt, geTol_zero] using hh i x c hx hb
+  simp only [inBox, InBoxP, Bool.and_eq_true, ha, hb]
+
+
+/-- the executable fixed-value test of `checkTrace` is the pointwise statement (plus: full length) -/
+theorem fixedOk_iff (fx : Fixed) (v : List ℚ) :
+    fixedOk (some fx) v = true ↔ v.length = fx.length ∧ ∀ (j : ℕ) (c : ℚ), fx[j]? = some (some c) → v[j]? = some c := by
+  simp only [fixedOk, Bool.and_eq_true, beq_iff_eq, zipAll_iff eqOpt]
+  constructor
+  · rintro ⟨hl, hz⟩
+    refine ⟨hl, ?_⟩
+    intro j c hj
+    have hjl : j < fx.length := (List.getElem?_eq_some_iff.mp hj).1
+    have hv : v[j]? = some v[j] := List.getElem?_eq_getElem (by omega)
+    have := hz j v[j] (some c) hv hj
+    simp only [eqOpt, beq_iff_eq] at this
+    rw [hv, this]
+  · rintro ⟨hl, hp⟩
+    refine ⟨hl, ?_⟩
+    intro i x b hx hb
+    cases b with
+    | none => rfl
+    | some c =>
+      have := hp i c hb
+      rw [hx] at this
+      simp only [Option.some.injEq] at this
+      simp [eqOpt, this]
+
+/-! ## decidable well-formedness flags of a generated wrapper row -/
+
+/-- the objective bounds of a wrapper are the caller's, or absent -/
+def Wrapper.objBoundsOk (w : Wrapper) : Bool :=
+  (w.objLower == none || w.objLower == some .lower) && (w.objUpper == none || w.objUpper == some .upper)
+
+/-- the returned vector is assembled by `_project_params_up` in every wrapper of the current source … -/
+def Wrapper.resultIsUp (w : Wrapper) : Bool := match w.result with | .up _ => true | _ => false
+
+/-- the start handed to the optimiser is the contracted `p0`, in the parameterisation of the objective -/
+def Wrapper.startOk (w : Wrapper) : Bool := w.start == some (if w.objLog then .log (.down .p0) else .down .p0)
+
+/-- the returned vector is the expanded, un-transformed optimiser answer, and the reported value is the optimiser's -/
+def Wrapper.resultOk (w : Wrapper) : Bool :=
+  w.result == (if w.objLog then .up (.exp .xopt) else .up .xopt) && w.reportsFopt
+
 end DadiVerif.Optim
